@@ -156,8 +156,29 @@ func RunCheck(id, tier string, seed uint64, replayPath string) int {
 			origin, headline := classifyCrash(tail)
 			switch origin {
 			case "lib":
-				viols = append(viols, Violation{Property: id, Key: "crash:" + crashKey(headline), Phase: o.phase.Name, Shard: o.shard,
-					Msg: "child process died in library code: " + headline + " (log " + o.logPath + ")", Case: o.curCase})
+				// the case the child announced (env.Begin) may name its own crash class ("crash_key"): the key is
+				// then specific to that input class, so a death of the same KIND on any other input is a
+				// different (unknown) violation instead of silently matching a known finding
+				var cur struct {
+					Index int64 `json:"index"`
+					Case  struct {
+						CrashKey string `json:"crash_key"`
+					} `json:"case"`
+				}
+				_ = json.Unmarshal(o.curCase, &cur)
+				key := "crash:" + crashKey(headline)
+				if cur.Case.CrashKey != "" {
+					kind := crashKey(headline)
+					switch {
+					case strings.Contains(headline, "stack overflow") || strings.Contains(headline, "stack exceeds"):
+						kind = "stack-overflow"
+					case strings.Contains(headline, "out of memory"):
+						kind = "out-of-memory"
+					}
+					key = "crash:" + cur.Case.CrashKey + ":" + kind
+				}
+				viols = append([]Violation{{Property: id, Key: key, Phase: o.phase.Name, Shard: o.shard, Index: cur.Index,
+					Msg: "child process died in library code: " + headline + " (log " + o.logPath + ")", Case: o.curCase}}, viols...)
 			default:
 				harnessBugs = append(harnessBugs, fmt.Sprintf("phase %s shard %d: child ended abnormally (%v): %s (log %s)", o.phase.Name, o.shard, o.exitErr, headline, o.logPath))
 			}
